@@ -48,6 +48,19 @@ pub unsafe extern "C" fn getrandom(
     buflen as libc::ssize_t
 }
 
+// ------------------------------------------------------------------ basic blocks
+
+/// SanitizerCoverage callbacks (the library crates are compiled with trace-pc-guard, see
+/// sim/rustc-wrap.sh). LLVM does not instrument functions whose names start with
+/// `__sanitizer_`, so these two are safe from recursion.
+#[no_mangle]
+pub unsafe extern "C" fn __sanitizer_cov_trace_pc_guard_init(_start: *mut u32, _stop: *mut u32) {}
+
+#[no_mangle]
+pub unsafe extern "C" fn __sanitizer_cov_trace_pc_guard(_guard: *mut u32) {
+    crate::threads::block_point();
+}
+
 // ------------------------------------------------------------------ clock
 
 /// 0 = real clock; otherwise nanoseconds the simulated clock advances per reading
@@ -136,6 +149,8 @@ pub struct Counters {
     pub session_records: u64,
     #[serde(default)]
     pub alloc_yields: u64,
+    #[serde(default)]
+    pub block_yields: u64,
 }
 
 pub struct SimState {
@@ -183,6 +198,7 @@ impl SimState {
                 calls_overlapped: 0,
                 session_records: 0,
                 alloc_yields: 0,
+                block_yields: 0,
             },
             session_open: false,
             session_transition: Vec::new(),
